@@ -1914,6 +1914,51 @@ case_enumnum(void)
 	put_enum_value(protobuf_c_enum_descriptor_get_value(&drv_enum, (int) n));
 }
 
+/* METHODNAME <0|1> <name>: protobuf_c_service_descriptor_get_method_by_name on one of two fixed service descriptors that
+ * declare the same eight method names in opposite orders (laid out as the generator lays them out: methods in declaration
+ * order, method_indices_by_name sorted by name).  Prints `V -` or `V <index in methods[]> <name>`; `V OUTSIDE` when the
+ * pointer returned is not an entry of that descriptor's methods[].  No model counterpart (threads of C17). */
+#define DRV_M(n) { n, NULL, NULL }
+static const ProtobufCMethodDescriptor drv_methods0[] = {
+	DRV_M("Alpha"), DRV_M("Bravo"), DRV_M("Charlie"), DRV_M("Delta"), DRV_M("Echo"), DRV_M("Foxtrot"), DRV_M("Golf"), DRV_M("Hotel")
+};
+static const unsigned drv_by_name0[] = { 0, 1, 2, 3, 4, 5, 6, 7 };
+static const ProtobufCMethodDescriptor drv_methods1[] = {
+	DRV_M("Hotel"), DRV_M("Golf"), DRV_M("Foxtrot"), DRV_M("Echo"), DRV_M("Delta"), DRV_M("Charlie"), DRV_M("Bravo"), DRV_M("Alpha")
+};
+static const unsigned drv_by_name1[] = { 7, 6, 5, 4, 3, 2, 1, 0 };
+static const ProtobufCServiceDescriptor drv_svc[2] = {
+	{ PROTOBUF_C__SERVICE_DESCRIPTOR_MAGIC, "drv.Store", "Store", "Drv__Store", "drv", 8, drv_methods0, drv_by_name0 },
+	{ PROTOBUF_C__SERVICE_DESCRIPTOR_MAGIC, "drv.Admin", "Admin", "Drv__Admin", "drv", 8, drv_methods1, drv_by_name1 },
+};
+
+static void
+case_methodname(void)
+{
+	unsigned which = tok_u32("service index");
+	char *t = tok();
+	char nm[64];
+	const ProtobufCMethodDescriptor *m;
+
+	if (which > 1 || !t)
+		drv_fail("METHODNAME needs 0|1 and a name");
+	snprintf(nm, sizeof nm, "%s", t);
+	expect_eol();
+	m = protobuf_c_service_descriptor_get_method_by_name(&drv_svc[which], nm);
+	if (!m) {
+		ob_puts("V -");
+		return;
+	}
+	if (m >= drv_svc[which].methods && m < drv_svc[which].methods + 8) {
+		ob_puts("V");
+		ob_sp_u64((uint64_t) (m - drv_svc[which].methods));
+	} else {
+		ob_puts("V OUTSIDE");
+	}
+	ob_putc(' ');
+	ob_puts(m->name ? m->name : "(null)");
+}
+
 /* SIZES: sizeof_message of every descriptor of the schema (the allocation-level model needs them to print sizes) */
 static void
 case_sizes(void)
@@ -2074,6 +2119,8 @@ run_case(char *line)
 		case_enumname();
 	else if (!strcmp(kw, "ENUMNUM"))
 		case_enumnum();
+	else if (!strcmp(kw, "METHODNAME"))
+		case_methodname();
 	else if (!strcmp(kw, "CHECK"))
 		case_check();
 	else if (!strcmp(kw, "BUF"))
